@@ -10,6 +10,7 @@ import (
 	"os/exec"
 	"path/filepath"
 	"strings"
+	"syscall"
 	"time"
 
 	"verifh/gen"
@@ -24,6 +25,8 @@ type CLICase struct {
 	Shown    string `json:"input_shown"`
 	Format   string `json:"format"`
 	Stdin    bool   `json:"stdin"`
+	// StdinKind: "" (pipe), "file", "socket", "devnull" (only for an empty document)
+	StdinKind string `json:"stdin_kind,omitempty"`
 	ToStdout bool   `json:"stdout"`
 	Invalid  bool   `json:"invalid_input"`
 	// ExtraHex: further input files given after the first on the command line (file mode only)
@@ -68,10 +71,45 @@ func runCLI(root string, k *CLICase, dir string, id int) cliResult {
 	cmd := exec.Command(cliPath(root), args...)
 	var so, se bytes.Buffer
 	cmd.Stdout, cmd.Stderr = &so, &se
-	if k.Stdin {
-		cmd.Stdin = bytes.NewReader(data)
-	}
 	var res cliResult
+	if k.Stdin {
+		// standard input comes in several kinds: a pipe, a redirected regular file, a connected
+		// socket (how a parent process, inetd or a service manager hands it over), /dev/null
+		switch k.StdinKind {
+		case "file":
+			f, err := os.Open(in)
+			if err != nil {
+				res.err = err
+				return res
+			}
+			defer f.Close()
+			cmd.Stdin = f
+		case "socket":
+			// (close-on-exec: no child may inherit the feeding end, or end of input never arrives)
+			fds, err := syscall.Socketpair(syscall.AF_UNIX, syscall.SOCK_STREAM|syscall.SOCK_CLOEXEC, 0)
+			if err != nil {
+				cmd.Stdin = bytes.NewReader(data)
+				break
+			}
+			rd, wr := os.NewFile(uintptr(fds[0]), "stdin-socket"), os.NewFile(uintptr(fds[1]), "feeder")
+			defer rd.Close()
+			go func() {
+				wr.Write(data)
+				wr.Close()
+			}()
+			cmd.Stdin = rd
+		case "devnull":
+			f, err := os.Open(os.DevNull)
+			if err != nil {
+				res.err = err
+				return res
+			}
+			defer f.Close()
+			cmd.Stdin = f
+		default:
+			cmd.Stdin = bytes.NewReader(data)
+		}
+	}
 	if err := cmd.Start(); err != nil {
 		res.err = err
 		return res
@@ -470,6 +508,12 @@ func runC20(c *Ctx) {
 				if !stdin && extra != nil {
 					k.ExtraHex = extra
 					vals = wantAll
+				}
+				if stdin {
+					k.StdinKind = []string{"", "file", "socket"}[(i+fi)%3]
+					if len(data) == 0 {
+						k.StdinKind = "devnull"
+					}
 				}
 				res := runCLI(c.Root, &k, dir, w*100+fi*2+b2i(stdin))
 				c.Eval(1)
